@@ -7,6 +7,7 @@ from ..cfg import CFG, EXIT
 from ..const import module_const
 from ..core import AnalysisError, calls_in, call_name, const_str, dotted, unparse, walk_no_nested
 from ..match import canon, if_chain, kwarg
+from ..match import canonical_statements
 from ..report import Ctx
 
 LEVEL = "other"
@@ -153,7 +154,9 @@ def r3_defines_are_integers(ctx: Ctx) -> None:
     conv = isinstance(val, ast.Call) and call_name(val) in ("eval_expression_str", "int", "eval_number")
     ctx.check(conv, "cli_main:-D value", f"the value text goes through the expression evaluator / int() before becoming a symbol; found `{unparse(val)}` "
               "(a string symbol cannot be evaluated: 'Unable to resolve')")
-    ctx.check(unparse(adds[0].func).startswith("program.resolver.current_scope"), "cli_main:-D scope", "defined in the root scope, before assembling")
+    from ..match import canon as _cn12b
+
+    ctx.check(_cn12b(cli.node, adds[0].func, keep=["program"]).startswith("program.resolver.current_scope"), "cli_main:-D scope", "defined in the root scope, before assembling")
     sp = [n for n in walk_no_nested(cli.node) if isinstance(n, ast.Assign) and isinstance(n.value, ast.Call) and (call_name(n.value) or "").endswith(".split")]
     ok = len(sp) == 1 and [unparse(a) for a in sp[0].value.args] == ["'='", "1"] and isinstance(sp[0].targets[0], ast.Tuple)
     ctx.check(ok, "cli_main:-D split", "NAME=VALUE split at the first '='")
@@ -205,7 +208,7 @@ def r4_one_pipeline(ctx: Ctx) -> None:
     ok = len(call) == 1 and fvar is not None and [_canon12(awe.node, x) for x in call[0].args] == [f"{fvar}.read()", awe.params()[1], awe.params()[2]]
     ctx.check(ok, "assemble_with_emitter:pipeline", "the whole file text goes through the in-memory entry point with the same writer")
     sw = repo.func("a816.writers", "SFCWriter.write_block")
-    body = [unparse(s) for s in sw.node.body]
+    body = canonical_statements(sw.node)
     ctx.check(body == [f"self.file.seek({sw.params()[2]})", f"self.file.write({sw.params()[1]})"], "SFCWriter.write_block", f"seek to the block's offset, then write the block; found {body}")
     wi = repo.func("a816.writers", "SFCWriter.__init__")
     ctx.check(any(unparse(s) == f"self.file = {wi.params()[1]}" for s in wi.node.body), "SFCWriter.__init__", "writes to the file it was given")
@@ -215,10 +218,11 @@ def r4_one_pipeline(ctx: Ctx) -> None:
 
 
 def r5_symbol_file(ctx: Ctx) -> None:
+    from ..match import canon as _cn12b
+
     ex = ctx.repo.func(PROGRAM, "Program.exports_symbol_file")
-    src = [n for n in walk_no_nested(ex.node) if isinstance(n, ast.Assign) and unparse(n.value) == "self.resolver.get_all_labels()"]
     loops = [n for n in walk_no_nested(ex.node) if isinstance(n, ast.For)]
-    ok = len(src) == 1 and len(loops) == 1 and unparse(loops[0].iter) == unparse(src[0].targets[0])
+    ok = len(loops) == 1 and _cn12b(ex.node, loops[0].iter) == "self.resolver.get_all_labels()"
     ctx.check(ok, "exports_symbol_file:source", "iterates get_all_labels()")
     if loops:
         from ..poly import poly, poly_of_source, show
@@ -242,6 +246,18 @@ def r5_symbol_file(ctx: Ctx) -> None:
     loops = [n for n in walk_no_nested(gl.node) if isinstance(n, ast.For)]
     ok = len(loops) == 1 and unparse(loops[0].iter) == "self.scopes" and len(loops[0].body) == 1 and isinstance(loops[0].body[0], ast.If) \
         and unparse(loops[0].body[0].test) == "not isinstance(scope, InternalScope)" and [unparse(b) for b in loops[0].body[0].body] == ["labels += scope.get_labels()"]
+    if not ok and not loops:
+        # the same walk as one comprehension: [label for scope in self.scopes if not isinstance(scope, InternalScope) for label in scope.get_labels()]
+        rets_ = [r for r in walk_no_nested(gl.node) if isinstance(r, ast.Return) and r.value is not None]
+        if len(rets_) == 1:
+            from ..match import inline as _inl, single_assignments as _sa
+
+            v_ = _inl(rets_[0].value, _sa(gl.node))
+            if isinstance(v_, ast.ListComp) and len(v_.generators) == 2:
+                g1, g2 = v_.generators
+                sc = unparse(g1.target)
+                ok = unparse(g1.iter) == "self.scopes" and [unparse(c) for c in g1.ifs] == [f"not isinstance({sc}, InternalScope)"] and not g2.ifs \
+                    and unparse(g2.iter) == f"{sc}.get_labels()" and unparse(v_.elt) == unparse(g2.target)
     ctx.check(ok, "Resolver.get_all_labels", "labels of every scope except loop-iteration (internal) scopes, each once")
     # "internal" means "a loop iteration" and nothing else: whoever else opens an internal scope hides its labels from the symbol file
     for fn in ctx.repo.all_functions():
@@ -253,7 +269,7 @@ def r5_symbol_file(ctx: Ctx) -> None:
                           "only loop iterations open an internal scope; labels defined in any other internal scope are dropped from the exported symbol file")
     ctx.floor("internal_scope_sites", 2)
     gls = ctx.repo.func("a816.symbols", "Scope.get_labels")
-    ctx.check([unparse(s) for s in gls.node.body] == ["return self.labels.items()"], "Scope.get_labels", "the scope's own label table")
+    ctx.check(canonical_statements(gls.node) == ["return self.labels.items()"], "Scope.get_labels", "the scope's own label table")
     ctx.count("symbol_file_facts", 5)
 
 
